@@ -722,7 +722,7 @@ def c09j(ctx):
         fn = ctx.fn(L + m)
         for sample, want in (('tiles.db', 'cache-dir'), ('sub/tiles.db', 'cache-dir'), ('a/b/tiles.db', 'cache-dir'), ('./tiles.db', 'config-dir')):
             sp = ctx.repo.specialise(fn, {key: sample, 'os.sep': '/', 'os.path.sep': '/'})
-            vals = [st.value for st in sp.walk() if isinstance(st, ast.Assign) and any(isinstance(t, ast.Name) and t.id == var for t in st.targets)]
+            vals = [sp.canon.expr(st.value) for st in sp.walk() if isinstance(st, ast.Assign) and any(isinstance(t, ast.Name) and t.id == var for t in st.targets)]
             got = []
             for v in vals:
                 if is_call(v, 'os.path.join') and len(v.args) == 2 and is_call(v.args[0], 'self.cache_dir') and const_value(v.args[1]) == sample:
